@@ -32,7 +32,11 @@ def run(ctx):
                       "run_lines and run_script the Vec<CommandResult> is only pushed / appended / extended - never cleared, "
                       "truncated, popped, drained or replaced (a line that yields no result, e.g. a comment, must not erase "
                       "the earlier ones)")
+    ctx.rule("R15-8", "source / scripts / functions leave no residue in the shell when they fail: in the interpreter entry "
+                      "points (run_script, run_lines, try_run_func, source) every `field += k` on the shell is matched by "
+                      "`field -= k` on EVERY path to a return, the early error returns included")
     for crate in ctx.crates:
+        pairing_rule(ctx, crate)
         accumulator_rule(ctx, crate)
         from .. import editlist
         n_ = editlist.rule(ctx, crate, "R15-6", ["scripting::expand_args_in_tokens"])
@@ -384,3 +388,40 @@ def accumulator_rule(ctx, crate):
                    detail=None if not bad else "%s: a line that produces no result (a comment line) after a failing command "
                    "leaves the list empty and the status falls back to 0" % bad[0][1])
     ctx.floor("R15-7", crate, "result lists in the interpreter", n, 5)
+
+
+PAIRED_SCOPE = ["scripting::run_script", "scripting::run_lines", "core::try_run_func", "builtins::source::run",
+                "scripting::run_exp", "scripting::run_exp_for", "scripting::run_exp_while"]
+
+
+def pairing_rule(ctx, crate):
+    n = 0
+    for p in PAIRED_SCOPE:
+        b = crate.fn(p)
+        if b is None:
+            continue
+        incs, decs = {}, {}
+        for bi, si, st in b.stmts():
+            if st["k"] != "assign" or not st["place"]["p"]:
+                continue
+            names = [x.get("name") for x in st["place"]["p"] if isinstance(x, dict) and "f" in x]
+            if not names:
+                continue
+            e = mir.peel(strip_sites(b.rvalue_expr(st["rv"])))
+            if e[0] == "field" and e[2][0] == "bin":        # checked arithmetic: (a + k).0
+                e = e[2]
+            if e[0] == "bin" and e[1] in ("Add", "Sub", "AddWithOverflow", "SubWithOverflow") and const_int(e[3]) is not None:
+                lhs = mir.peel(e[2])
+                if lhs[0] == "field" and mir.field_name(lhs) == names[-1]:
+                    (incs if e[1].startswith("Add") else decs).setdefault(names[-1], set()).add(bi)
+        rets = {bb for bb in b.reachable if b.term(bb)["k"] == "return"}
+        for fld_, blocks in sorted(incs.items()):
+            for ib in sorted(blocks):
+                n += 1
+                ok = fld_ in decs and flow.must_pass(b, ib, decs[fld_], rets)
+                ctx.ob("R15-8", p, "`%s += k` is undone on every path to a return" % fld_, ok,
+                       key="R15-8|%s|unbalanced|%s" % (p, fld_), where=b.loc(ib), crate=crate.kind,
+                       detail=None if ok else "an early `return` (no such file, not UTF-8, ...) leaves the counter raised: after "
+                       "enough failures every later source / call is refused or miscounted")
+    ctx.ob("R15-8", "interpreter", "%d increment(s) of shell fields in the interpreter entry points" % n, True, crate=crate.kind,
+           nontrivial=False)
